@@ -30,6 +30,7 @@ def run(ctx):
     C.check_endian_delegation(ctx, P)
     C.check_reader_totality(ctx, P)
     C.check_serialize_total(ctx, P)
+    C.check_reader_rejections(ctx, P)
     from . import guardrules as R_
 
     R_.check_scalar_importer_rejects(ctx, "E4.import-total", P)
